@@ -90,15 +90,15 @@ Print Assumptions C10_spec_compare_characterised.
 
 (* -- the lookup loop of asn1f_parameterization_fork never reaches the unimplemented constraint comparison
       (the "terminates by exit" clause, for this loop): every reference list free of value sets gets its indices
-      ([stable]: no value set and no value NULL in a compared position) -- *)
-Theorem C10_spec_lookup_total : forall refs, Forall (fun a => stable (key a) = true) refs ->
+      ([novs]: no value set in a compared position) -- *)
+Theorem C10_spec_lookup_total : forall refs, Forall (fun a => novs (key a) = true) refs ->
   exists ks, spec_indices refs = Some ks /\ length ks = length refs.
 Proof. exact assign_total. Qed.
 Print Assumptions C10_spec_lookup_total.
 
 (* -- THE decision: two references to a template share a C type iff their actual parameter lists have the same key;
       indices are dense in order of first use -- *)
-Theorem C10_spec_index_partition : forall refs ks, Forall (fun a => stable (key a) = true) refs -> spec_indices refs = Some ks ->
+Theorem C10_spec_index_partition : forall refs ks, Forall (fun a => novs (key a) = true) refs -> spec_indices refs = Some ks ->
   length ks = length refs /\
   forall i j a b ki kj, nth_error refs i = Some a -> nth_error refs j = Some b -> nth_error ks i = Some ki -> nth_error ks j = Some kj ->
     (ki = kj <-> key a = key b).
@@ -110,17 +110,10 @@ Proof. exact spec_index_dense. Qed.
 Print Assumptions C10_spec_index_dense.
 
 (* -- resolving the same reference again (the fixer does, several times per reference) changes nothing -- *)
-Theorem C10_spec_fork_idempotent : forall tbl a tbl' k, tbl_ok tbl -> stable (key a) = true -> fork tbl a = Some (tbl', k) ->
+Theorem C10_spec_fork_idempotent : forall tbl a tbl' k, tbl_ok tbl -> novs (key a) = true -> fork tbl a = Some (tbl', k) ->
   fork tbl' a = Some (tbl', k).
 Proof. exact fork_idempotent. Qed.
 Print Assumptions C10_spec_fork_idempotent.
-
-(* ... but not for the value NULL: the table stores a clone, asn1p_value_clone turns NULL into "no value", the second
-   lookup of the same reference forks again (finding C10-param-null-value-respecialized, module PaNullValue) *)
-Theorem C10_spec_fork_idempotent_null_refuted :
-  exists tbl' k, fork [] null_actual = Some (tbl', k) /\ fork tbl' null_actual <> Some (tbl', k).
-Proof. exact fork_idempotent_null_refuted. Qed.
-Print Assumptions C10_spec_fork_idempotent_null_refuted.
 
 (* -- the defect of the unchanged tree, stated: constraints and nested parameter lists never influence the index ... -- *)
 Theorem C10_spec_ignores_constraints : forall refs, spec_indices (map key refs) = spec_indices refs.
